@@ -40,7 +40,7 @@ func metaBlocksJSON(v any) string {
 }
 
 func runC17(rc *RunCtx, i int) {
-	o := world.BuildOpts{MoreMerge: i%2 == 0}
+	o := world.BuildOpts{MoreMerge: i%2 == 0 || i%8 == 5, BigBlocks: i%8 == 5}
 	c, err := buildDP(rc, i, o, false)
 	if err != nil {
 		rc.Violate(i, "scenario-failed", "", "fault-free scenario failed: "+err.Error(), nil)
